@@ -85,7 +85,7 @@ def gen_cases(tier, seed):
             if rng.random() < 0.35:
                 # every allowed weight exceeds every flow value: the errors (slacks) pile up beyond the largest flow
                 mx = max(base["flow"].values()) or 1
-                c["superset"] = [(mx + rng.choice([1, 2])) if wt == "int" else float(mx + 0.5)] * rng.randint(1, 3)
+                c["superset"] = [(int(-(-mx // 1)) + rng.choice([1, 2])) if wt == "int" else float(mx + 0.5)] * rng.randint(1, 3)      # (given weights of the requested type: whole numbers for int)
         if not node and rng.random() < 0.3 and c["superset"] is None:
             # the caller's assumption "these edges appear in an optimal solution" (explicit list, or the edges at/above a weight percentile)
             if cyc and rng.random() < 0.5:
